@@ -10,11 +10,19 @@ mutates the object a variable refers to, the last group only observes.
   ["mkresize", [[col,text]...], n]   CHText.make(CHText.resize_chunks_list([chunks], n))
   ["add", a, part]              v_a + part
   ["radd", part, a]             part + v_a          (part: str / chunk / list / tuple)
-  ["join", a, [part...]]        v_a.join([...])
+  ["join", a, [part...], kind]  v_a.join(X): X = the items as a list (kind absent / "list"), "tuple", "gen" (generator),
+                                "iter" (iter(list)), "map", "dkeys" (keys of a dict), "rev" (reversed(list)) -- one model statement
+  ["joinit", a, it]             v_a.join(X), X ITSELF a text / chunk / str:  it = ["v", k] | ["c", col, text] | ["s", text]
+  ["cjoinit", [col,text], it]   the same with a bare chunk as separator
   ["index", a, i]  ["slice", a, lo, hi]  ["fixed", a, n]
   ["cadd", [col,text], part]  ["cradd", part, [col,text]]  ["cjoin", [col,text], [part...]]  ["cfixed", [col,text], n]
   ["iadd", a, part]             v_a += part
   ["fmt", a, spec]  ["eq", a, part]  ["cindex", ch, i]  ["cslice", ch, lo, hi]  ["ceq", ch, part]  ["cfmt", ch, spec]
+  ["iter", a, how]              the items of iterating v_a; how = list | tuple | for | comp | unpack | next | enum | star | sorted-free
+                                spellings of the same walk (one model statement OIter); also records bool(v_a)
+  ["riter", a]                  list(reversed(v_a))
+  ["in", a, part]               part in v_a
+  ["citer", [col,text], rev]    list(chunk) / list(reversed(chunk))
                                 (eq / ceq observe  x == p, p == x, x != p, p != x;  ceq: p a str or a chunk)
 part:  ["s", text] | ["c", col, text] | ["v", k] | ["l", [part...]] | ["t", [part...]]   (list / tuple)
 col :  a key of COLORS (chunks are made by ColorFmt(...)(text), the public way)
@@ -54,7 +62,9 @@ DEFAULT_PAL = {"plain": ["", ""], "red": ["\x1b[31m", "\x1b[0m"], "green": ["\x1
 PLAIN = ("", "")
 
 CREATING = {"new", "make", "mkresize", "add", "radd", "join", "index", "slice", "fixed",
-            "cadd", "cradd", "cjoin", "cfixed"}
+            "cadd", "cradd", "cjoin", "cfixed", "joinit", "cjoinit"}
+JOIN_KINDS = ["list", "tuple", "gen", "iter", "map", "dkeys", "rev"]
+ITER_HOWS = ["list", "tuple", "for", "comp", "unpack", "next", "enum", "star"]
 
 RULE = ("random straight-line programs of 3-25 statements over CHText objects (single-assignment variables, "
         "`+=` in place, aliasing through fixed_len and self operands): constructor from nested lists/tuples of "
@@ -68,7 +78,13 @@ RULE = ("random straight-line programs of 3-25 statements over CHText objects (s
         "same or nearly the same -- each run alone, prefixes/suffixes at run boundaries and elsewhere, one character "
         "more/less/changed, white-space and case variants, the empty string, same text in other colours, the runs "
         "split/recoloured/reordered/with one dropped, an extra (empty) chunk at either end, lists/tuples; "
-        "== and != are both observed in both operand orders. "
+        "== and != are both observed in both operand orders; "
+        "a text / chunk / str used AS AN ITERABLE (family 'iter' and random statements): sep.join(X) with X a text "
+        "(also the separator itself), a bare chunk or a str, separators empty / plain / coloured / of several runs / a "
+        "bare chunk, against the join over the single characters; the items of a join handed over as tuple, generator, "
+        "iterator, map, dict keys, reversed(); walking a text (list, tuple, for, comprehension, star-unpacking, next(), "
+        "enumerate, *args), reversed(), `x in text` for one character in one colour, bool(); walking chunks; the walks "
+        "repeated after += changed the text; texts there have a colour run of >= 2 characters. "
         "Non-trivial = distinct program in which some object has >= 2 chunks or an exception/alias occurred.")
 TRUSTED_BASE = [
     "gen/C08_Consts.v: four facts read from ak/color.py by harness/props/c08.py:gen_consts (ast, fail closed): "
@@ -81,6 +97,11 @@ TRUSTED_BASE = [
     "Model.sx_eq_obs, compared with the implementation's != on every generated comparison",
     "chunks are created through ColorFmt (suffix determined by prefix); the prefix/suffix strings are read from "
     "the implementation per run and passed to the model as literals",
+    "Python's iteration protocol for classes without __iter__ / __reversed__ / __contains__ (t[0], t[1], ... until "
+    "IndexError; reversed = len then t[n-1..0]; `in` = any(item == x)) is restated in Model.iter_loop / rev_loop / "
+    "item_eq; list / tuple / for / comprehension / unpacking / next / enumerate / *args are taken to be the same walk "
+    "(one model statement OIter, the implementation is run in the spelling the case names); generator / iterator / "
+    "map / dict-keys / reversed arguments of join are taken to deliver the listed items in order (model statement SJoin)",
 ]
 ASSUMPTIONS = [
     "operands are str, chunks made by ColorFmt, CHText objects and lists/tuples of those; indices and bounds are "
@@ -91,7 +112,9 @@ ASSUMPTIONS = [
     "slices with a step on CHText raise ValueError (checked by correspondence family 'step'), chunk[::k] is not modelled",
 ]
 MODELLED = ("ak/color.py:171-617: every method of _CHTextChunk and CHText except strip_colors (C09) "
-            "and slice steps on bare chunks; objects other than str/chunk/CHText/list/tuple as operands are not modelled")
+            "and slice steps on bare chunks; objects other than str/chunk/CHText/list/tuple as operands are not modelled; "
+            "iteration of texts and chunks (no __iter__/__reversed__/__contains__ in the source: sequence protocol) and "
+            "join over a text / chunk / str are modelled")
 
 
 class ExtractError(Exception):
@@ -310,6 +333,15 @@ class Ref:
             if st[2] < 0:
                 return None
             return self.fixed(self.chunk(st[1]), st[2])
+        if k in ("joinit", "cjoinit"):
+            # the iterable is a text / chunk / str: like a str, it gives its characters one by one
+            sep = list(self.vars[st[1]]) if k == "joinit" else self.chunk(st[1])
+            obj = []
+            for n, x in enumerate(self.leaf_value(st[2])):
+                if n:
+                    obj.extend(sep)
+                obj.append(x)
+            return obj
         raise ValueError(k)
 
 
@@ -496,8 +528,10 @@ class _Gen:
         n = len(val)
         k = rng.choices(
             ["new", "make", "mkresize", "add", "radd", "join", "index", "slice", "fixed", "cadd", "cradd", "cjoin",
-             "cfixed", "iadd", "fmt", "eq", "cindex", "cslice", "ceq", "cfmt"],
-            [8, 3, 2, 8, 4, 5, 5, 12, 6, 2, 2, 1, 2, 12, 6, 8, 1, 2, 2, 1])[0]
+             "cfixed", "iadd", "fmt", "eq", "cindex", "cslice", "ceq", "cfmt",
+             "joinit", "cjoinit", "iter", "riter", "in", "citer"],
+            [8, 3, 2, 8, 4, 5, 5, 12, 6, 2, 2, 1, 2, 12, 6, 8, 1, 2, 2, 1,
+             4, 1, 3, 1, 2, 1])[0]
         if k == "new":
             return self.emit(["new", [_part(rng, nv) for _ in range(rng.choice([0, 1, 2, 3, 4]))]])
         if k == "make":
@@ -516,7 +550,22 @@ class _Gen:
                 p = ["s", _text(rng)]
             return self.emit(["radd", p, a])
         if k == "join":
-            return self.emit(["join", a, [_part(rng, nv) for _ in range(rng.choice([0, 1, 2, 3, 3]))]])
+            return self.emit(self.join_kind(["join", a, [_part(rng, nv) for _ in range(rng.choice([0, 1, 2, 3, 3]))]]))
+        if k == "joinit":
+            it = self.iterable()
+            if it[0] == "v" and len(self.ref.vars[it[1]]) * (n + 1) > 80:
+                it = ["c", _col(rng), _text(rng, 0, 4)]      # (a text joined over a text grows quadratically)
+            return self.emit(["joinit", a, it])
+        if k == "cjoinit":
+            return self.emit(["cjoinit", _chunk(rng), self.iterable()])
+        if k == "iter":
+            return self.emit(["iter", a, rng.choice(ITER_HOWS)])
+        if k == "riter":
+            return self.emit(["riter", a])
+        if k == "in":
+            return self.emit(["in", a, self.in_operand(a)])
+        if k == "citer":
+            return self.emit(["citer", _chunk(rng), rng.random() < 0.3])
         if k == "index":
             return self.emit(["index", a, _pos(rng, val, none_ok=False)])
         if k == "slice":
@@ -533,7 +582,7 @@ class _Gen:
                 p = ["s", _text(rng)]
             return self.emit(["cradd", p, _chunk(rng)])
         if k == "cjoin":
-            return self.emit(["cjoin", _chunk(rng), [_part(rng, nv) for _ in range(rng.choice([0, 1, 2, 3]))]])
+            return self.emit(self.join_kind(["cjoin", _chunk(rng), [_part(rng, nv) for _ in range(rng.choice([0, 1, 2, 3]))]]))
         if k == "cfixed":
             ch = _chunk(rng)
             return self.emit(["cfixed", ch, rng.randint(0, len(ch[1]) + 2)])
@@ -555,6 +604,54 @@ class _Gen:
         if k == "ceq":
             return self.emit(["ceq", ch, self.ceq_operand(ch)])
         return self.emit(["cfmt", ch, _spec(rng, m)])
+
+    def join_kind(self, st):
+        """hand the items of a join over as something other than a list in about half of the cases"""
+        rng = self.rng
+        if rng.random() < 0.5:
+            return st
+        kind = rng.choice(JOIN_KINDS)
+        if kind == "dkeys":
+            texts = [p[1] for p in st[2] if p[0] == "s"]
+            if len(texts) != len(st[2]) or len(set(texts)) != len(texts):
+                kind = "gen"
+        return st + [kind]
+
+    def iterable(self, a=None):
+        """a text / chunk / str used AS the iterable of a join: mostly one with a run of several characters"""
+        rng = self.rng
+        r = rng.random()
+        if r < 0.6 and self.nv():
+            if a is not None and rng.random() < 0.5:
+                return ["v", a]
+            long = [j for j, v in enumerate(self.ref.vars) if len(v) >= 2]
+            return ["v", rng.choice(long) if long and rng.random() < 0.7 else rng.randrange(self.nv())]
+        if r < 0.85:
+            return ["c", _col(rng), _text(rng, 0, 4)]
+        return ["s", _text(rng, 0, 4)]
+
+    def in_operand(self, a):
+        """one character in one colour (str / chunk / text), present in v_a or not; a str operand is either
+        default-coloured in v_a or absent from it (no demand is made on `'a' in red('a')`)"""
+        rng = self.rng
+        val = self.ref.vars[a]
+        r = rng.random()
+        if val and r < 0.6:
+            c, pair = rng.choice(val)
+            col = PAIR_NAME[pair]
+        else:
+            c, col = rng.choice(ALPHA), _col(rng)
+        if r < 0.15 and val:
+            c = rng.choice(ALPHA)                    # right colour, perhaps another character
+        r = rng.random()
+        if col == "plain" and r < 0.5 and not any(y == c and pair != PLAIN for y, pair in val):
+            return ["s", c]
+        if r < 0.15:
+            absent = [x for x in ALPHA + ["x"] if all(x != y for y, _ in val)]
+            return ["s", rng.choice(absent)] if absent else ["c", col, c]
+        if r < 0.75:
+            return ["c", col, c]
+        return ["v", self.emit(["new", [["c", col, c]]])]
 
     def ceq_operand(self, ch):
         rng = self.rng
@@ -812,7 +909,92 @@ def _eq_program(rng):
     return {"tag": "eqnear", "prog": g.prog}
 
 
+def _iter_program(rng):
+    """a text with at least one colour run of several characters, used as an iterable in every way: as the
+    argument of join (separator empty / plain / coloured / of several runs / a bare chunk / the text itself),
+    walked in all spellings, reversed, searched; again after += changed it; the same with chunks and strs"""
+    g = _Gen(rng)
+    nruns = rng.choice([1, 2, 2, 3, 3, 4])
+    cols = []
+    for i in range(nruns):
+        c = _col(rng)
+        while cols and DEFAULT_PAL[c] == DEFAULT_PAL[cols[-1]]:
+            c = _col(rng)
+        cols.append(c)
+    long = rng.randrange(nruns)
+    parts = []
+    for i, c in enumerate(cols):
+        t = _text(rng, 2, 4) if i == long or rng.random() < 0.4 else _text(rng, 1, 2)
+        parts.append(["s", t] if c == "plain" and rng.random() < 0.5 else ["c", c, t])
+    a = g.emit(["new", parts])
+    if rng.random() < 0.3:
+        b = g.near_var(a, rng.choice(["prefix", "suffix", "inner", "copy"]))
+        if len(g.ref.vars[b]) >= 2:
+            a = b
+    seps = [g.emit(["new", []]), g.emit(["new", [["s", rng.choice(["-", ", ", " "])]]]),
+            g.emit(["new", [["c", rng.choice(["red", "green", "bb"]), rng.choice(["-", "ab"])]]]),
+            g.emit(["new", [["c", "red", "a"], ["s", "b"]]]), a]
+    if rng.random() < 0.5:
+        _iter_joins(g, a, seps)
+    else:
+        _iter_walks(g, a, seps)
+    return {"tag": "iter", "prog": g.prog}
+
+
+def _iter_joins(g, a, seps):
+    rng = g.rng
+    for sp in rng.sample(seps, 3):
+        g.emit(["joinit", sp, ["v", a]])
+    # ''.join(text) is the text again
+    e = g.emit(["joinit", seps[0], ["v", a]])
+    g.emit(["eq", e, ["v", a]])
+    g.emit(["cjoinit", [rng.choice(["plain", "red", "nc"]), rng.choice(["", "-", "ab"])], ["v", a]])
+    # the same join written over the single characters (index by index) must give the same
+    n = len(g.ref.vars[a])
+    ids = [g.emit(["index", a, i]) for i in range(min(n, 5))]
+    if n <= 5:
+        z = g.emit(g.join_kind(["join", seps[1], [["v", i] for i in ids]]))
+        y = g.emit(["joinit", seps[1], ["v", a]])
+        g.emit(["eq", z, ["v", y]])
+    # the items handed over as generator / dict keys / ...
+    chars = [c for c, _ in g.ref.vars[a]][:4]
+    g.emit(["join", seps[2], [["s", c] for c in chars], "dkeys" if len(set(chars)) == len(chars) else "gen"])
+    g.emit(["join", a, [_part(rng, g.nv()) for _ in range(3)], rng.choice(JOIN_KINDS[1:5] + ["rev"])])
+    # again after the text was changed in place
+    g.emit(["iadd", a, _part(rng, g.nv())])
+    g.emit(["joinit", seps[1], ["v", a]])
+
+
+def _iter_walks(g, a, seps):
+    rng = g.rng
+    for how in rng.sample(ITER_HOWS, 3):
+        g.emit(["iter", a, how])
+    g.emit(["riter", a])
+    for _ in range(3):
+        g.emit(["in", a, g.in_operand(a)])
+    # chunks and strs as iterables
+    ch = [rng.choice(["red", "green", "bb", "plain", "nc"]), _text(rng, 2, 4)]
+    g.emit(["joinit", rng.choice(seps), ["c"] + ch])
+    g.emit(["cjoinit", _chunk(rng), ["c"] + ch])
+    g.emit(["joinit", rng.choice(seps), ["s", _text(rng, 2, 4)]])
+    g.emit(["citer", ch, False])
+    g.emit(["citer", ch, True])
+    # walk again after the text was changed in place, and walk a result of a walk-based join
+    g.emit(["iadd", a, _part(rng, g.nv())])
+    g.emit(["iter", a, rng.choice(ITER_HOWS)])
+    j = g.emit(["joinit", seps[1], ["v", a]])
+    g.emit(["iter", j, rng.choice(ITER_HOWS)])
+    g.emit(["iter", seps[0], "list"])
+
+
 FIXED_CASES = [
+    {"tag": "fixed", "prog": [["new", [["c", "red", "ab"], ["s", "c"], ["c", "green", "de"]]], ["new", [["c", "bb", "-"]]],
+                              ["joinit", 1, ["v", 0]], ["iter", 0, "for"], ["riter", 0], ["in", 0, ["c", "red", "b"]],
+                              ["in", 0, ["s", "c"]], ["in", 0, ["s", "x"]], ["joinit", 1, ["c", "green", "xyz"]],
+                              ["joinit", 1, ["s", "xyz"]], ["cjoinit", ["red", ", "], ["v", 0]], ["citer", ["red", "abc"], False],
+                              ["citer", ["red", "abc"], True], ["join", 1, [["s", "a"], ["s", "b"]], "dkeys"],
+                              ["join", 1, [["v", 0], ["c", "red", "q"]], "gen"], ["joinit", 0, ["v", 0]], ["iter", 1, "star"],
+                              ["new", []], ["iter", 9, "list"], ["joinit", 1, ["v", 9]]]},
     {"tag": "fixed", "prog": [["new", [["c", "red", "ab"], ["s", "cd"]]], ["iadd", 0, ["v", 0]], ["add", 0, ["s", ""]],
                               ["eq", 0, ["v", 1]]]},
     {"tag": "fixed", "prog": [["new", [["c", "red", "ab"], ["s", "cd"], ["c", "red", "e"]]], ["iadd", 0, ["v", 0]]]},
@@ -852,6 +1034,8 @@ def gen_cases(rng, tier):
         cases.append(_slice_program(rng))
     for _ in range(2500 if big else 200):
         cases.append(_eq_program(rng))
+    for _ in range(3000 if big else 260):
+        cases.append(_iter_program(rng))
     return cases
 
 
@@ -867,6 +1051,8 @@ def search_cases(rng, tier):
         cases.append(_format_program(rng))
     for _ in range(600):
         cases.append(_eq_program(rng))
+    for _ in range(400):
+        cases.append(_iter_program(rng))
     return cases
 
 
@@ -911,6 +1097,55 @@ def impl_run(case):
         items = [mkpart(x) for x in p[1]]
         return items if p[0] == "l" else tuple(items)
 
+    def mkiterable(parts, kind):
+        """the items handed to join() as something other than a list"""
+        items = [mkpart(p) for p in parts]
+        if kind in (None, "list"):
+            return items
+        if kind == "tuple":
+            return tuple(items)
+        if kind == "gen":
+            return (x for x in items)
+        if kind == "iter":
+            return iter(items)
+        if kind == "map":
+            return map(lambda x: x, items)
+        if kind == "dkeys":
+            return dict.fromkeys(items).keys()       # the generator hands out distinct str items only
+        if kind == "rev":
+            return reversed(items[::-1])
+        raise ValueError(kind)
+
+    def walk(t, how):
+        """the items of iterating t, spelled in the ways a caller may spell it"""
+        if how == "list":
+            return list(t)
+        if how == "tuple":
+            return list(tuple(t))
+        if how == "for":
+            out = []
+            for x in t:
+                out.append(x)
+            return out
+        if how == "comp":
+            return [x for x in t]
+        if how == "unpack":
+            *out, = t
+            return out
+        if how == "next":
+            it = iter(t)
+            out = []
+            while True:
+                try:
+                    out.append(next(it))
+                except StopIteration:
+                    return out
+        if how == "enum":
+            return [x for _, x in enumerate(t)]
+        if how == "star":
+            return (lambda *a: list(a))(*t)
+        raise ValueError(how)
+
     def chunks_of(t):
         return [[c.c_prefix, c.text, c.c_suffix] for c in t.chunks]
 
@@ -935,7 +1170,7 @@ def impl_run(case):
         if k == "radd":
             return mkpart(st[1]) + vs[st[2]]
         if k == "join":
-            return vs[st[1]].join([mkpart(p) for p in st[2]])
+            return vs[st[1]].join(mkiterable(st[2], st[3] if len(st) > 3 else None))
         if k == "index":
             return vs[st[1]][st[2]]
         if k == "slice":
@@ -947,7 +1182,11 @@ def impl_run(case):
         if k == "cradd":
             return mkpart(st[1]) + mkchunk(st[2])
         if k == "cjoin":
-            return mkchunk(st[1]).join([mkpart(p) for p in st[2]])
+            return mkchunk(st[1]).join(mkiterable(st[2], st[3] if len(st) > 3 else None))
+        if k == "joinit":
+            return vs[st[1]].join(mkpart(st[2]))
+        if k == "cjoinit":
+            return mkchunk(st[1]).join(mkpart(st[2]))
         if k == "cfixed":
             return mkchunk(st[1]).fixed_len(st[2])
         raise ValueError(k)
@@ -997,6 +1236,43 @@ def impl_run(case):
             res = [a == b, b == a, a != b, b != a]
             res = [int(x) if isinstance(x, bool) else 2 for x in res]
             sobs.append({"r": res[:2], "ne": res[2:]})
+        elif k in ("iter", "riter"):
+            t = vs[st[1]]
+            o = {}
+            try:
+                items = walk(t, st[2]) if k == "iter" else list(reversed(t))
+                odd = [type(x).__name__ for x in items if type(x) is not CHText]
+                if odd:
+                    o["r"] = ["err", "ItemType:" + odd[0]]
+                    o["items"] = [str(x) for x in items]
+                else:
+                    o["r"] = ["ok", [{"scrlen": x.scrlen, "len": len(x), "chunks": chunks_of(x), "str": str(x),
+                                      "plain": x.plain_text()} for x in items]]
+            except Exception as e:  # noqa
+                o["r"] = err(e)
+            try:
+                o["bool"] = bool(t)
+                o["n"] = len(t)
+            except Exception as e:  # noqa
+                o["bool"] = SX.exc_name(e)
+            sobs.append(o)
+        elif k == "in":
+            try:
+                r = mkpart(st[2]) in vs[st[1]]
+                sobs.append({"r": ["ok", int(r) if isinstance(r, bool) else 2]})
+            except Exception as e:  # noqa
+                sobs.append({"r": err(e)})
+        elif k == "citer":
+            c = mkchunk(st[1])
+            try:
+                items = list(reversed(c)) if st[2] else list(c)
+                odd = [type(x).__name__ for x in items if type(x) is not Chunk]
+                if odd:
+                    sobs.append({"r": ["err", "ItemType:" + odd[0]]})
+                else:
+                    sobs.append({"r": ["ok", [[x.c_prefix, x.text, x.c_suffix] for x in items]]})
+            except Exception as e:  # noqa
+                sobs.append({"r": err(e)})
         elif k in ("cindex", "cslice"):
             c = mkchunk(st[1])
             try:
@@ -1051,6 +1327,16 @@ def _c_chunks(cs, pal):
     return SX.clist(_c_chunk(c, pal) for c in cs) if cs else "(@nil chunk)"
 
 
+def _c_iterable(it, pal):
+    if it[0] == "v":
+        return f"(ItText {SX.cnat(it[1])})"
+    if it[0] == "c":
+        return f"(ItChunk {_c_chunk(it[1:], pal)})"
+    if it[0] == "s":
+        return f"(ItStr {SX.cstr(it[1])})"
+    raise ValueError(it)
+
+
 def _c_opt(x):
     return SX.copt(x, SX.cZ)
 
@@ -1100,6 +1386,18 @@ def coq_case(case, obs):
             out.append(f"OChunkEq {_c_chunk(st[1], pal)} {_c_part(st[2], pal)}")
         elif k == "cfmt":
             out.append(f"OChunkFormat {_c_chunk(st[1], pal)} {SX.cstr(st[2])}")
+        elif k == "joinit":
+            out.append(f"SJoinIt {SX.cnat(st[1])} {_c_iterable(st[2], pal)}")
+        elif k == "cjoinit":
+            out.append(f"SChunkJoinIt {_c_chunk(st[1], pal)} {_c_iterable(st[2], pal)}")
+        elif k == "iter":
+            out.append(f"OIter {SX.cnat(st[1])}")
+        elif k == "riter":
+            out.append(f"ORevIter {SX.cnat(st[1])}")
+        elif k == "in":
+            out.append(f"OIn {SX.cnat(st[1])} {_c_part(st[2], pal)}")
+        elif k == "citer":
+            out.append(f"OChunkIter {_c_chunk(st[1], pal)} {SX.cbool(bool(st[2]))}")
         else:
             raise ValueError(k)
     return "Prog " + (SX.clist(out) if out else "(@nil stmt)")
@@ -1139,6 +1437,14 @@ def full_obs(case, obs):
             so.append(SX.ok(SX.s(r[1])) if r[0] == "ok" else SX.err(r[1]))
         elif k in ("eq", "ceq"):
             so.append([int(r[0]), int(r[1]), int(o["ne"][0]), int(o["ne"][1])])
+        elif k in ("iter", "riter"):
+            so.append(SX.ok([[x["scrlen"], _sx_chunks(x["chunks"]), SX.s(x["str"]), SX.s(x["plain"])] for x in r[1]])
+                      if r[0] == "ok" else SX.err(r[1]))
+        elif k == "in":
+            so.append(SX.ok(r[1]) if r[0] == "ok" else SX.err(r[1]))
+        elif k == "citer":
+            # the model has no error case here (a marker that cannot equal a list of chunks)
+            so.append(_sx_chunks(r[1]) if r[0] == "ok" else [[-1], SX.err(r[1])])
         else:
             so.append(SX.ok(_sx_chunks([r[1]])[0]) if r[0] == "ok" else SX.err(r[1]))
     dump = [[d["scrlen"], _sx_chunks(d["chunks"]), SX.s(d["str"]), SX.s(d["plain"])] for d in obs["dump"]]
@@ -1151,7 +1457,7 @@ def expected_sx(case, obs):
     so, dump = full_obs(case, obs)
     cso = []
     for st, o in zip(case["prog"], so):
-        if st[0] in ("fmt", "cfmt", "cindex", "cslice") and o[0] == 0:
+        if st[0] in ("fmt", "cfmt", "cindex", "cslice", "iter", "riter") and o[0] == 0:
             o = [0, sx_hash(o[1])]
         cso.append(o)
     cd = [[d[0], len(d[1]), sx_hash(d)] for d in dump]
@@ -1295,6 +1601,52 @@ def oracle(case, obs):
                 want = a == b
             if r != [want, want] or o["ne"] != [not want, not want]:
                 bad("equality", f"stmt {i} {st}: chunk == gives {r} (!= gives {o['ne']}), expected {want}")
+        elif k in ("iter", "riter"):
+            # walking over a text visits len(text) one-character texts, each in its own colour -- like the str
+            val = ref.vars[st[1]]
+            want = list(val) if k == "iter" else list(val)[::-1]
+            what = f"stmt {i} {st}: iterating the text {_show(val)!r}"
+            if r[0] != "ok":
+                if r[1].startswith("ItemType:"):
+                    bad("iteration", f"{what} yields {o.get('items')} of type {r[1][9:]}, expected {len(want)} one-character texts")
+                else:
+                    bad("iteration", f"{what} raised {r[1]}")
+            elif len(r[1]) != len(want):
+                bad("iteration", f"{what} yields {len(r[1])} items {[x['plain'] for x in r[1]]}, "
+                                 f"iterating the str gives {len(want)}")
+            else:
+                for n, (x, w) in enumerate(zip(r[1], want)):
+                    if (cchars_of_chunks(x["chunks"]) != [w] or x["len"] != 1 or x["plain"] != w[0]
+                            or cchars_of_str(x["str"], pal) != [w]):
+                        bad("iteration", f"{what}: item {n} is {x['str']!r} (len {x['len']}), expected the character "
+                                         f"{w[0]!r} in colour {w[1]}")
+                        break
+            if k == "iter" and (o.get("bool") != (len(val) > 0) or o.get("n") != len(val)):
+                bad("len", f"stmt {i} {st}: bool() = {o.get('bool')}, len() = {o.get('n')} for the text {_show(val)!r}")
+        elif k == "in":
+            # demanded where every reading of `x in text` agrees: one character in a given colour
+            # (str.__contains__ is a substring test, CHText has none: longer operands carry no demand)
+            val = ref.vars[st[1]]
+            p = st[2]
+            if p[0] not in ("s", "c", "v"):
+                continue
+            pv = ref.leaf_value(p)
+            if len(pv) != 1:
+                continue
+            want = pv[0] in val
+            if p[0] == "s" and not want and any(c == pv[0][0] for c, _ in val):
+                continue                  # the character is there in another colour: no demand
+            if r != ["ok", int(want)]:
+                bad("contains", f"stmt {i} {st}: `in` gives {r}, the text {_show(val)!r} "
+                                f"{'has' if want else 'has not'} that character in that colour")
+        elif k == "citer":
+            a = ref.chunk(st[1])
+            want = a[::-1] if st[2] else a
+            if r[0] != "ok":
+                bad("iteration", f"stmt {i} {st}: iterating the chunk gives {r}")
+            elif [cchars_of_chunks([x]) for x in r[1]] != [[w] for w in want]:
+                bad("iteration", f"stmt {i} {st}: iterating the chunk yields {r[1]}, expected its {len(want)} characters "
+                                 f"one by one in the chunk's colour")
         elif k in ("cindex", "cslice"):
             a = ref.chunk(st[1])
             try:
@@ -1368,7 +1720,10 @@ LEVEL_TEXT = ("Full (about the model, unbounded): program_refines + inv_reachabl
               "operations, and every observation (result identity, IndexError, == and != results) coincides; eq_canonical, "
               "canonical_unique, eq_str, eq_chunk, len_visible, plain_text_visible, str_of_default_coloured; format_visible for "
               "ALL specs [[fill]align][width]['s'] without leading 0 (the odd hand parser is proved to decode the grammar); "
-              "iadd_self_terminates (rests on the regenerated fact that __iadd__ copies the list).  "
+              "iadd_self_terminates (rests on the regenerated fact that __iadd__ copies the list); iter_refines: iterating a "
+              "canonical text (forwards, reversed) gives exactly its characters one by one, each a canonical text of one "
+              "character in its colour, and program_refines covers sep.join(text / chunk / str) = join over the characters, "
+              "list(t), reversed(t), `x in t` = some character equals x.  "
               "Partial: make_canonical_partial (CHText.make is canonical only for non-empty chunks; make_empty_chunk_refuted and "
               "resize_truncate_refuted are witnesses of the failing rest, see notes); specs outside the grammar, negative "
               "fixed_len lengths, slice steps, non-str/chunk/CHText operands: correspondence-tested or not modelled.  "
